@@ -38,6 +38,7 @@ def reclaim(case, res):
         if mode == "lowheap":
             S.alloc_faults = True        # refusals with internal errors are legitimate once the cap is near
             S.key_prefix = "capfault:"   # what goes wrong when allocations fail is C15's subject; keys are kept apart
+            S.desync = True              # which requests take effect near the cap is not modelled: resources are the subject here
             S.strict_close = False
         for step in range(n):
             if mode == "inject" and rng.random() < 0.25:
